@@ -308,6 +308,9 @@ func (p *sparser) unary() SExpr {
 	if p.accept("^") {
 		return &SUnary{"^", p.unary()}
 	}
+	if p.accept("*") {
+		return &SUnary{"*", p.unary()}
+	}
 	return p.postfix(p.primary())
 }
 
@@ -497,10 +500,18 @@ type SpecFunc struct {
 	PkgPath string
 }
 
+// GlobalFact is an assumed fact about package-level variables after
+// initialisation (only allowed in /verif/lib; always listed as trusted).
+type GlobalFact struct {
+	PkgPath string
+	Clause  *Clause
+}
+
 type ContractSet struct {
 	Contracts map[string]*Contract
 	Funcs     map[string]*SpecFunc
 	Files     []string
+	Globals   []*GlobalFact
 }
 
 func NewContractSet() *ContractSet {
@@ -655,6 +666,21 @@ func (cs *ContractSet) LoadContractFile(path, pkgPath string) error {
 			}
 			cs.Contracts[key] = cur
 			curLoop = nil
+		case word == "global":
+			if err := finishClause(); err != nil {
+				return err
+			}
+			if pkgPath != "" {
+				return fmt.Errorf("%s:%d: global facts are only allowed in library spec files", path, l.no)
+			}
+			i := strings.Index(rest, ":")
+			if i < 0 {
+				return fmt.Errorf("%s:%d: global needs  <package path>: <fact>", path, l.no)
+			}
+			cl := &Clause{Kind: "global", Text: strings.TrimSpace(rest[i+1:]), Line: l.no, File: path, Name: "global"}
+			cs.Globals = append(cs.Globals, &GlobalFact{PkgPath: strings.TrimSpace(rest[:i]), Clause: cl})
+			lastClause = cl
+			cur = nil
 		case word == "pure" || word == "rec":
 			if err := finishClause(); err != nil {
 				return err
